@@ -32,6 +32,6 @@ def superpoly(ts, budget=20.0):
         best = max(best, run)
     return best >= 2 or ts[-1][2] > budget
 
-ts = family_times('comment unterminated')
+ts = family_times('template args fnptr suffix')
 for x in ts: print(x)
 sys.exit(1 if superpoly(ts) else 0)
